@@ -1,0 +1,26 @@
+//go:build verif
+
+package keeper
+
+// Machine-checked contracts for the govc verifier (/verif). Comment-only; compiled only with -tags verif.
+
+// Surplus auction bid (C11): the new bid improves on the standing one by at least the bid factor (exact rational comparison),
+// the outbid bidder is refunded in full in the same call, custody moves by exactly new bid minus refunded bid,
+// and the auction records the new standing bid and bidder.
+//@ func (k Keeper) PlaceSurplusAuctionBid
+//@   property C11
+//@   let a0 = k.GetSurplusAuction(ctx, appID, auctionMappingID, auctionID).0
+//@   let had = a0.AuctionStatus != auctiontypes.AuctionStartNoBids
+//@   let am = modaddr("auctionV1")
+//@   requires #auction-keyed: k.GetSurplusAuction(ctx, appID, auctionMappingID, auctionID).1 == nil ==> a0.AppId == appID && a0.AuctionMappingId == auctionMappingID && a0.AuctionId == auctionID
+//@   requires #accounts: bidder != am && (had ==> a0.Bidder != am)
+//@   requires #standing-bid-denom: had ==> a0.Bid.Denom == a0.BuyToken.Denom && a0.Bid.Amount >= 0
+//@   requires #factor: a0.BidFactor >= 0
+//@   letpost a1 = k.GetSurplusAuction(ctx, appID, auctionMappingID, auctionID).0
+//@   ensures #c11-denom: result == nil ==> bid.Denom == a0.BuyToken.Denom
+//@   ensures #c11-improves-by-factor: result == nil && had ==> bid.Amount * ONE >= a0.Bid.Amount * ONE + a0.BidFactor * a0.Bid.Amount
+//@   ensures #c11-first-bid-above-reserve: result == nil && !had ==> bid.Amount > a0.Bid.Amount
+//@   ensures #c11-standing-bid-recorded: result == nil ==> a1.Bid == bid && a1.Bidder == bidder
+//@   ensures #c11-custody: result == nil ==> bal(am, bid.Denom) == old(bal(am, bid.Denom)) + bid.Amount - ite(had, a0.Bid.Amount, 0)
+//@   ensures #c11-outbid-refunded: result == nil && had && a0.Bidder != bidder ==> bal(a0.Bidder, bid.Denom) == old(bal(a0.Bidder, bid.Denom)) + a0.Bid.Amount
+//@   ensures #c11-bidder-pays: result == nil && (!had || a0.Bidder != bidder) ==> bal(bidder, bid.Denom) == old(bal(bidder, bid.Denom)) - bid.Amount
